@@ -86,6 +86,11 @@ func genParseCase(r *Rng) (string, string) {
 		return g.Print(e) + open, "opencomment"
 	case c < 84:
 		e := g.Gen("?", 1+r.Intn(4))
+		if r.Chance(35) {
+			// multi-byte text before the suffix: byte offsets and rune offsets of what follows differ
+			lead := r.Pick([]string{"/*é中😀*/", "/* ü */ ", "\"é\" + ", "`中😀` + "})
+			return lead + g.Print(e) + r.Pick([]string{"", " ", "/*ß*/"}) + r.Pick(exprSuffixes), "suffix"
+		}
 		return g.Print(e) + r.Pick(exprSuffixes), "suffix"
 	case c < 92:
 		e := g.Gen("?", 1+r.Intn(4))
